@@ -8,8 +8,9 @@
        rp_fault   0, or the reason the model left its domain (RepairRaw.RpF_ constants)
        rp_uninit_ppl  the C wrote uninitialised stack bytes into a payload_prev_length field (the model writes 0)
        rp_did     whether the repair branch was entered
-       rp_end_off where the open wrote its END chunk header (0: none); the C does not seek to the end of the
-                  file before jls_core_wr_end, so this need not be the end of the file
+       rp_end_off where the open wrote its END chunk header (0: none); since /repo 6df24a0 the C seeks to the end
+                  of the file before jls_core_wr_end (before that commit it did not: the END header could land
+                  on a chunk in the middle of the file)
    is meant to be EXACTLY what the harness observes (tools/props/RP.py compares rc, log and file).
 
    C functions modelled, in the C's control flow (read side in RepairRaw.v):
@@ -501,15 +502,18 @@ Definition rp_scan (f : list N) : (rp_rd * N) + rp_rd :=
           if negb (rc4 =? 0) then inl (rp_rd_set_io c3 s4, JLS_ERROR_EMPTY)
           else inr (rp_rd_set_io c3 s4).
 
-(* the end of the repair branch: jls_core_wr_end, jls_raw_close, jls_raw_open r, the final phase.
-   jls_core_wr_end: no jls_raw_seek_end before it.  The END header goes to raw->offset, which is the end of the
-   file only if the last FSR signal's repair left it there *)
-Definition rp_repair_end (w9 : rp_w) : rp_result :=
-  let w9a := if rp_w_inplace w9 then rp_w_set_uninit w9 else w9 in
+(* the end of the repair branch: jls_raw_seek_end (since /repo 6df24a0), jls_core_wr_end, jls_raw_close; then
+   jls_raw_open r and the final phase.  rp_end_off = raw->offset at jls_core_wr_end = where the END header goes *)
+Definition rp_end_seek (w9 : rp_w) : rp_w := rp_w_set_io w9 (rp_seek_end (rp_w_io w9)).
+Definition rp_end_state (w9 : rp_w) : rp_w :=
+  let w9s := rp_end_seek w9 in
+  let w9a := if rp_w_inplace w9s then rp_w_set_uninit w9s else w9s in
   let b9 := rp_wm_base w9a 0 in
-  let end_off := wm_offset (wm_b_raw b9) in
   let b10 := wm_core_wr_end b9 in
-  let w10 := rp_commit w9a (wm_b_set_raw b10 (wm_raw_close (wm_b_raw b10))) in
+  rp_commit w9a (wm_b_set_raw b10 (wm_raw_close (wm_b_raw b10))).
+Definition rp_repair_end (w9 : rp_w) : rp_result :=
+  let end_off := rp_offset (rp_r (rp_w_io (rp_end_seek w9))) in
+  let w10 := rp_end_state w9 in
   let '(s11, rc11) := rp_raw_open (rp_w_io w10) false in
   let w11 := rp_w_set_io w10 s11 in
   if negb (rc11 =? 0) then rp_res_end rc11 w11 true end_off
